@@ -7,6 +7,7 @@ import (
 	"sort"
 	"strings"
 
+	"github.com/akalin/gopar/gf2p16"
 	"github.com/akalin/gopar/par2"
 
 	"verifh/core"
@@ -26,6 +27,7 @@ type c05Case struct {
 	G      int      `json:"g"`
 	Class  string   `json:"class,omitempty"`
 	MayRefuse bool  `json:"may_refuse,omitempty"`
+	NoSSSE3 bool    `json:"nossse3,omitempty"` // Create with the SSSE3 dispatch flag forced off
 	Unreadable int  `json:"unreadable,omitempty"` // 1-based index of an input that does not exist (0 = all inputs readable); -k: input k is a directory
 }
 
@@ -107,6 +109,12 @@ func c05Gen(g *core.Gen) {
 			g.Emit(&c05Case{Sizes: []int{z, 100}, Names: c05Names(2, z), Slice: s, Blocks: 3, G: 3})
 		}
 	}
+	// the non-SSSE3 dispatch path through Create (slices long enough for the bulk kernels, several goroutines)
+	for _, s := range []int{64, 96, 2000, 65536, 65540} {
+		for _, gg := range []int{1, 2, 5} {
+			g.Emit(&c05Case{Sizes: []int{2*s + 3, s, 5*s - 1}, Names: c05Names(3, s), Slice: s, Blocks: 3, G: gg, NoSSSE3: true})
+		}
+	}
 	// content classes
 	for _, cl := range []string{"zero", "periodic", "dupslice", "trailzero"} {
 		g.Emit(&c05Case{Sizes: []int{13, 8, 21}, Names: c05Names(3, 1), Slice: 4, Blocks: 4, G: 2, Class: cl})
@@ -133,6 +141,10 @@ func c05Gen(g *core.Gen) {
 
 func c05Run(ci interface{}, r *core.Rec) {
 	c := ci.(*c05Case)
+	if c.NoSSSE3 {
+		old := gf2p16.VerifSetUseSSSE3(false)
+		defer gf2p16.VerifSetUseSSSE3(old)
+	}
 	fs := envfs.New()
 	var paths []string
 	var specs []rpar2.FileSpec
